@@ -278,6 +278,7 @@ type metaStep struct {
 	From      []treeEntry `json:"from"`
 	Keys      []string    `json:"keys"`
 	Skip      bool        `json:"skip"`
+	Loser     []treeEntry `json:"loser"`
 	Post      postState   `json:"post"`
 }
 
@@ -367,6 +368,76 @@ func (m *metaRun) doStep(st metaStep) {
 		}
 		if st.Op == "uploadcrash" && !ctl.Crashed() {
 			m.bad("driver/crash-not-reached", nil, errString(err), "the crash point was not reached")
+		}
+	case "reupload":
+		// a second writer under the id of a committed bundle
+		src, _ := e.writeTree(st.Tree, 0)
+		b := e.newBundle(stores, st.Repo, e.ksuidFor(st.Bundle), src)
+		var err error
+		if st.Mode == "entries" {
+			for _, t := range st.Tree {
+				b.BundleEntries = append(b.BundleEntries, model.BundleEntry{NameWithPath: "reuploaded/" + t.P, Hash: strings.Repeat("ab", 64), Size: 1})
+			}
+			b.BundleEntries = append(b.BundleEntries, model.BundleEntry{NameWithPath: "reuploaded", Hash: strings.Repeat("cd", 64), Size: 2})
+			err = b.UploadBundleEntries(ctx)
+		} else {
+			err = core.Upload(ctx, b)
+		}
+		if err == nil {
+			m.bad("reupload/accepted/"+st.Mode, "error", "ok", "a committed bundle id was written again")
+		}
+	case "uploadrace":
+		// the loser is stopped at its first file-list write (after its existence check), the winner runs to the end
+		id := e.ksuidFor(st.ID)
+		lsrc, _ := e.writeTree(st.Loser, 0)
+		lstores, lctl := e.client()
+		lb := e.newBundle(lstores, st.Repo, id, lsrc)
+		lctl.HoldFn = func(storeName, op, key string) bool {
+			return storeName == "meta" && op == "put" && strings.Contains(key, "bundle-files-")
+		}
+		done := make(chan error, 1)
+		go func() {
+			defer func() {
+				if p := recover(); p != nil {
+					done <- fmt.Errorf("panic: %v", p)
+				}
+			}()
+			done <- core.Upload(ctx, lb)
+		}()
+		held := false
+		var lerr error
+		finished := false
+		for t0 := time.Now(); !held && !finished && time.Since(t0) < 30*time.Second; {
+			if len(lctl.HeldKeys()) > 0 {
+				held = true
+				break
+			}
+			select {
+			case lerr = <-done:
+				finished = true
+			case <-time.After(time.Millisecond):
+			}
+		}
+		src, _ := e.writeTree(st.Tree, 0)
+		b := e.newBundle(stores, st.Repo, id, src)
+		if err := core.Upload(ctx, b); err != nil {
+			m.bad("uploadrace/winner-error", "ok", err.Error(), "")
+		}
+		lctl.ReleaseAll()
+		if !finished {
+			select {
+			case lerr = <-done:
+			case <-time.After(60 * time.Second):
+				m.bad("uploadrace/loser-hangs", nil, nil, "")
+				return
+			}
+		}
+		if !held {
+			// the loser never reached a file-list write: it ran alone before the winner; the winner must then
+			// have been refused, which is reported above (winner-error): a driver problem, not a verdict
+			m.bad("driver/race-not-reached", nil, errString(lerr), "")
+		} else if lerr == nil {
+			m.bad("uploadrace/loser-reported-success", "error", "ok", "two uploads of one bundle id both succeeded")
 		}
 	case "uploadkeys":
 		src, _ := e.writeTree(st.Tree, 0)
@@ -1188,7 +1259,9 @@ func compactSteps(steps []metaStep) interface{} {
 			out = append(out, fmt.Sprintf("uploadkeys(%s,#%d,keys=%v,skip=%v)=%s", s.Repo, s.ID, s.Keys, s.Skip, s.Res))
 		case "update":
 			out = append(out, fmt.Sprintf("update(#%d->#%d)", s.A, s.B))
-		case "upload", "uploadcrash":
+		case "reupload":
+			out = append(out, fmt.Sprintf("reupload(%s,#%d,%s)", s.Repo, s.Bundle, s.Mode))
+		case "upload", "uploadcrash", "uploadrace":
 			var names []string
 			for _, t := range s.Tree {
 				names = append(names, t.P+":"+t.C)
